@@ -83,6 +83,7 @@ func main() {
 	explain := flag.String("explain", "", "violation report to re-derive")
 	list := flag.Bool("list", false, "list registered properties")
 	mut := flag.String("mutants", "", "development: run the overlay catalogue of a property (or 'all')")
+	prb := flag.Bool("probes", false, "development: run the whole-program probes against every property and print what changes")
 	flag.Parse()
 	verifDirGlobal = *verif
 
@@ -107,6 +108,9 @@ func main() {
 	}
 	if *mut != "" {
 		os.Exit(devMutants(*mut, *repo))
+	}
+	if *prb {
+		os.Exit(devProbes(*repo, *verif))
 	}
 	if *explain != "" {
 		b, err := os.ReadFile(*explain)
